@@ -19,7 +19,8 @@ EXTENDS Integers, Sequences, FiniteSets, TLC, Json
 
 CONSTANTS Mode, MaxLen
 
-Keys == {"s0", "t0", "bal", "code", "time", "s1"}
+\* ("alias": the per-path cache of the deployed account a symbolic address was resolved to)
+Keys == {"s0", "t0", "bal", "code", "time", "s1", "alias"}
 Setup == [k \in Keys |-> CASE k = "s0" -> 7 [] k = "s1" -> 1 [] k = "time" -> 1 [] OTHER -> 0]
 
 \* the concrete test functions of harness: checks/c20.py builds one bytecode body per entry
@@ -34,6 +35,10 @@ Tests == [
     read_code      |-> [writes |-> << >>,          expects |-> [code |-> 0]],
     write_time     |-> [writes |-> [time |-> 100], expects |-> [time |-> 1]],
     read_time      |-> [writes |-> << >>,          expects |-> [time |-> 1]],
+    \* both call the symbolic address chosen by setUpSymbolic(address); alias_b fails for one of the accounts it may denote:
+    \* it could only pass if some earlier test had already pinned the address to another account
+    alias_a        |-> [writes |-> [alias |-> 1], expects |-> << >>],
+    alias_b        |-> [writes |-> [alias |-> 1], expects |-> [alias |-> 1]],
     inv_a          |-> [writes |-> << >>,          expects |-> [s1 |-> 1]],
     inv_b          |-> [writes |-> << >>,          expects |-> [s1 |-> 1, s0 |-> 7]]
 ]
